@@ -753,8 +753,8 @@ class CostFunction_GaussApproximation(CostFunction):
         :return: cost function value
         """
         _residuals = model - data
-        if np.all(_residuals == 0):
-            return 0
+        if np.all(_residuals == 0) and not self._add_determinant_cost_ga:
+            return 0  # saturated model (goodness of fit): avoids 0/0 for empty bins without uncertainties
         _variances = model + total_error**2
         _cost = np.sum(np.square(_residuals) / _variances)
         if self._add_determinant_cost_ga:
